@@ -28,6 +28,7 @@ func c03(c *Ctx) {
 	c03R4(c)
 	c03R5(c)
 	c03R6(c)
+	c03R7(c)
 }
 
 // R1 ---------------------------------------------------------------------------------------------
